@@ -2113,7 +2113,8 @@ def _set(
     if isinstance(key, str):
         cls = type(self)
         __dict__ = self.__dict__
-        if __dict__["_tensordict"].is_locked:
+        if __dict__["_tensordict"].is_locked and not inplace:
+            # in-place writes of existing entries are allowed on a locked tensordict
             raise RuntimeError(_LOCK_ERROR)
         # if key in ("batch_size", "names", "device"):
         #     # handled by setattr
